@@ -11,7 +11,7 @@ history executed under four schedules:
 """
 import numpy as np
 
-from .. import build, core, gen
+from .. import build, core, gen, repotests
 from .. import oracles as orc
 from ..gen import J, JI
 
@@ -56,6 +56,7 @@ def cells(tier, seed):
                 () if tier == "quick" else ((2, 1, 2, 3), (3, 2, 3, 4))):
             out.append({"hetbad": ak, "Dx": Dx, "Dy": Dy, "Dk": Dk, "Da": Da,
                         "group": ["hetbad", ak], "cost": 0.5})
+    out += repotests.cells(tier)
     return out
 
 
@@ -302,6 +303,8 @@ def run_hetbad(cell, rec, seed):
 
 
 def run_cell(cell, rec, seed):
+    if "repo_tests" in cell:
+        return repotests.run(cell, rec)
     if "hetbad" in cell:
         return run_hetbad(cell, rec, seed)
     i, D, maxlen = cell["prog"], cell["D"], cell["maxlen"]
